@@ -80,3 +80,18 @@ pub fn drive<F: std::future::Future>(f: F) -> F::Output {
     }
     panic!("future did not complete");
 }
+
+/// await a future, turning a panic inside it into Err(message)
+pub async fn catch_async<T>(f: impl std::future::Future<Output = T>) -> Result<T, String> {
+    use futures::FutureExt;
+    match std::panic::AssertUnwindSafe(f).catch_unwind().await {
+        Ok(v) => Ok(v),
+        Err(e) => Err(if let Some(s) = e.downcast_ref::<&str>() {
+            s.to_string()
+        } else if let Some(s) = e.downcast_ref::<String>() {
+            s.clone()
+        } else {
+            "panic".to_string()
+        }),
+    }
+}
